@@ -417,6 +417,18 @@ def jsonable(x):
     return repr(x)
 
 
+# wall-clock budgets: the sizes are chosen to finish well inside them on an idle
+# machine; on an overloaded one the harness stops scheduling further cases
+# (and says so) instead of overrunning its time limit
+BUDGET_S = {'quick': 15.0, 'thorough': 230.0}
+
+
+def expired(deadline):
+    import time
+
+    return deadline is not None and time.time() > deadline
+
+
 class Violations:
     '''collects violations, one (the first/smallest) per signature'''
 
